@@ -14,6 +14,7 @@ Executed over ℚ by `GT.Driver.C08`, instantiated at ℝ in `GT.Properties.C08`
 import Mathlib.Data.Matrix.Basis
 import Mathlib.Data.Matrix.Mul
 import Mathlib.LinearAlgebra.Matrix.NonsingularInverse
+import Mathlib.LinearAlgebra.Matrix.Adjugate
 import GT.Base.DMat
 
 namespace GT.Cox
@@ -94,6 +95,24 @@ def cheb (t : R) : ℕ → R
   | 0 => -1
   | 1 => 0
   | (k + 2) => t * cheb t (k + 1) - cheb t k
+
+/-! ### the fundamental triangle of a rank-3 group (used for the triangle-angle clause) -/
+
+/-- the bilinear form `xᵀ B y` (`utils.apply_bilinear`) -/
+def bil (B : Matrix (Fin n) (Fin n) R) (x y : Fin n → R) : R := x ⬝ᵥ (B *ᵥ y)
+
+/-- the vertex opposite to mirror `k`: column `k` of the adjugate, i.e. the vector orthogonal to
+every simple root except `α_k` (the common fixed vector of the other reflections, hence the fixed
+point of their product) -/
+def vertex (B : Matrix (Fin n) (Fin n) R) (k : Fin n) : Fin n → R := fun a => B.adjugate a k
+
+/-- direction at `x` towards `y`: `B(x,x)·y − B(y,x)·x` (the same multiple, for every `y`, of the
+`B`-orthogonal projection of `y` off `x`; angles between two such directions do not see the factor) -/
+def tangent (B : Matrix (Fin n) (Fin n) R) (x y : Fin n → R) : Fin n → R :=
+  bil B x x • y - bil B y x • x
+
+/-- a symmetric rank-3 form with unit diagonal: the cosine form of a triangle group -/
+def form3 (a b c : R) : Matrix (Fin 3) (Fin 3) R := !![1, a, b; a, 1, c; b, c, 1]
 
 /-! ### materialised execution (array-backed; see `GT.Base.DMat`) -/
 
